@@ -50,6 +50,9 @@ type Script struct {
 	// Glue: step -> bytes written together with the (successful) reply to that step, in one write: what a server sends
 	// right behind the last reply of the negotiation must not be lost on the way to the receive loop
 	Glue map[string]string `json:"glue,omitempty"`
+	// AfterFault: what the server goes on to say on the connection once the negotiation has failed (right behind a
+	// deviation, and before it answers the client's stream end): nothing of it may be acted upon
+	AfterFault string `json:"after_fault,omitempty"`
 	// ExpectEnable: the harness knows that the client will ask for stream management after the bind (it requested it and
 	// the server offers it), so the peer waits for <enable/> instead of taking a silent client to be done - on a loaded
 	// machine the client can take longer than IdleAfterBind to get there
@@ -298,7 +301,11 @@ func (c *Conn) Negotiate(s *Script, timeout time.Duration) *Outcome {
 			if strings.HasPrefix(step, "open") && d.Kind == "stream-error" {
 				c.Send(s.header()) // a stream error is sent inside a stream
 			}
-			return c.playDev(step, d, req)
+			ended := c.playDev(step, d, req)
+			if !ended && s.AfterFault != "" {
+				c.Send(s.AfterFault)
+			}
+			return ended
 		}
 		if g, has := s.Glue[step]; has {
 			c.glueNext = g
@@ -331,6 +338,19 @@ func (c *Conn) Negotiate(s *Script, timeout time.Duration) *Outcome {
 		case "eof", "error", "timeout":
 			return out
 		case "close":
+			if s.AfterFault != "" && !out.Established && !faulted {
+				c.Send(s.AfterFault) // the client gave up on its own (e.g. no STARTTLS on offer): the server talks on
+			}
+			if s.AfterFault != "" {
+				// what the client still writes after its own stream end (an answer to what the server just said?) is
+				// recorded as well: the peer lingers a moment before it ends the stream from its side
+				lingerUntil := time.Now().Add(150 * time.Millisecond)
+				for time.Now().Before(lingerUntil) {
+					if ev := c.Next(time.Until(lingerUntil)); ev.Kind == "eof" || ev.Kind == "error" || ev.Kind == "timeout" {
+						break
+					}
+				}
+			}
 			c.Send("</stream:stream>")
 			c.Close()
 			return out
